@@ -5,7 +5,14 @@ K      : the REAL initialize / init_security under substituted entry points, for
          every configuration of the domain x every call failing in turn x three
          exception classes (exhaustive), compared in Coq with the IR semantics
 oracle : the ordering / completeness / abort claims stated directly on the
-         recorded call sequences (independent of the model)
+         recorded call sequences (independent of the model); and the END STATE seen
+         from a client: the configuration that the server object RETURNED by
+         initialize() hands to its request handlers has root "/" after a chroot, and
+         requests put to that object (its own handler class, every shipped
+         `servertype`) are resolved against "/" — the chroot is recorded, not
+         executed, so "/" is still the real "/" and the scratch document root D is
+         visible as D: after a (recorded) chroot to D the selector D/doc must be
+         answered with the document and the selector /doc must not
 """
 import itertools
 import json
@@ -31,8 +38,27 @@ SPELLINGS = [("on", True), ("1", True), ("True", True), ("YES", True), ("tRuE", 
 BOOL_OPTION = {"usechroot": "BChroot", "detach": "BDetach", "enable_tls": "BTls"}
 
 
-def mk(c, u, g, t, p, d, u0=False, g0=False, alt=None):
-    return {"chroot": c, "uid": u, "gid": g, "tls": t, "pid": p, "detach": d, "uid0": u0, "gid0": g0, "alt": alt}
+DEFAULT_STYPE = "ForkingTCPServer"
+# values of `servertype` that name no server class (get_server must refuse them before anything else happens)
+BAD_STYPES = ["PreforkTCPServer", "forkingtcpserver", "BaseServer", ""]
+
+
+def mk(c, u, g, t, p, d, u0=False, g0=False, alt=None, stype=None):
+    o = {"chroot": c, "uid": u, "gid": g, "tls": t, "pid": p, "detach": d, "uid0": u0, "gid0": g0, "alt": alt}
+    if stype is not None and stype != DEFAULT_STYPE:
+        o["stype"] = stype          # every other configuration runs with the shipped default, ForkingTCPServer
+    return o
+
+
+def stype_opts(shipped):
+    """the `servertype` dimension: every server class pygopherd.server ships, for each combination of
+    usechroot/setuid/setgid and once with everything configured; and names of no server class"""
+    out = []
+    for st in shipped:
+        out += [mk(c, u, g, "absent", False, False, stype=st) for c, u, g in itertools.product([False, True], repeat=3)]
+        out.append(mk(True, True, True, "on", True, True, stype=st))
+    out += [mk(True, True, True, "absent", False, False, stype=st) for st in BAD_STYPES]
+    return [o for o in out if "stype" in o]
 
 
 def base_opts():
@@ -111,7 +137,9 @@ def coq_case(case):
     tr = "[" + "; ".join("(%s, [%s])" % (cs(n), "; ".join(cs(a) for a in args)) for n, args in r["trace"]) + "]"
     start = {"root": "StartRoot", "launcher": "StartLauncher", "dropped": "StartDropped"}[case.get("start", "root")]
     creds = "[" + "; ".join(cs(x) for x in r["final_creds"]) + "]"
-    return "((%s, (%s, (%s, (%s, %s)))), (%d, (%s, (%s, %s))))" % (
+    served = "(@None str)" if r.get("served_root") is None else "(Some %s)" % cs(r["served_root"])
+    return "((%s, %s), ((%s, (%s, (%s, (%s, %s)))), (%d, (%s, (%s, %s)))))" % (
+        cs(case["opts"].get("stype", DEFAULT_STYPE)), served,
         cb(case["entry"] == "initialize"), coq_opts(case["opts"]), fail, cb(case["fork_parent"]), start,
         kind, origin, tr, creds)
 
@@ -194,6 +222,29 @@ def oracle(case):
                              % (r["trace"][i][1], "the identity change" if reached else "serving")))
             if ["config.set", ["pygopherd", "root", "/"]] not in upto:
                 hits.append(("chroot-root-not-rewritten", "root option not rewritten to / after chroot"))
+    # ... and the rewritten root is the one the server that start-up hands back will serve from
+    if whole and r["kind"] == "running" and "os.chroot" in names:
+        stype = o.get("stype", DEFAULT_STYPE)
+        if r.get("served_root") != "/":
+            hits.append(("server-root-not-rewritten",
+                         "servertype = %s: after os.chroot(%s) the configuration of the server object returned by "
+                         "initialize() — the one its request handlers read — has root = %r, not '/'%s"
+                         % (stype, ROOT, r.get("served_root"),
+                            " (%s)" % r["served_err"] if r.get("served_err") else "")))
+        replies = {x["selector"]: x for x in r.get("replies") or []}
+        for rel, token in case.get("docs") or []:
+            inside, outside = replies.get("{ROOT}" + rel), replies.get(rel)
+            if inside is not None and token not in inside["out"]:
+                hits.append(("jail-root-not-served",
+                             "servertype = %s: after the (recorded) chroot to the document root D the returned server "
+                             "does not answer the selector D%s with the document (reply %r%s): selectors are not "
+                             "resolved against '/'" % (stype, rel, inside["out"][:80],
+                                                      ", " + inside["exc"] if inside["exc"] else "")))
+            if outside is not None and token in outside["out"]:
+                hits.append(("prechroot-root-served",
+                             "servertype = %s: after the (recorded) chroot to the document root D the returned server "
+                             "answers the selector %s with D%s: selectors are still resolved against the pre-chroot "
+                             "root, i.e. inside the jail it would serve <jail>/D, not the jail" % (stype, rel, rel)))
     # the credentials the process ends up with when it goes on to serve
     if r["kind"] == "running":
         ruid, euid, suid, rgid, egid, sgid, groups = r["final_creds"]
@@ -222,6 +273,26 @@ def oracle(case):
     return hits
 
 
+def serve_job(rng, shipped):
+    """The runs that go on to answer requests: a real scratch tree as document root, each shipped
+    servertype x usechroot (several spellings) x setuid/setgid, the other options drawn at random."""
+    def name(prefix, ext=""):
+        return prefix + "".join(rng.choice("abcdefghijklmnopqrstuvwxyz0123456789") for _ in range(10)) + ext
+    top, sub, inner = name("c19-", ".txt"), name("c19d-"), name("in-", ".txt")
+    docs = [["/" + top, name("TOKEN-")], ["/%s/%s" % (sub, inner), name("TOKEN-")]]
+    tree = [{"path": rel.lstrip("/"), "kind": "file", "data": "document %s\n" % tok} for rel, tok in docs]
+    selectors = [pre + rel for rel, _ in docs for pre in ("{ROOT}", "")]
+    configs = []
+    for st in shipped:
+        for c, alt in [(False, None), (True, None), (True, ["usechroot", rng.choice(["on", "1", "True", "YES"]), True]),
+                       (False, ["usechroot", rng.choice(["off", "0", "nO"]), False])]:
+            for u, g in ([(False, False), (True, True)] if alt is None else [rng.choice([(True, False), (False, True)])]):
+                configs.append({"opts": mk(c, u, g, rng.choice(["absent", "off", "on"]), rng.random() < 0.5,
+                                           rng.random() < 0.5, alt=alt, stype=st),
+                                "start": rng.choice(STARTS) if (u or g) else "root"})
+    return {"op": "c19_serve", "configs": configs, "tree": tree, "selectors": selectors}, docs
+
+
 def sweep(configs, parallel=True):
     jobs = [{"op": "c19_sweep", "configs": [c], "classes": CLASSES, "socket_classes": SOCKET_CLASSES,
              "persistent_classes": PERSISTENT_CLASSES} for c in configs]
@@ -244,6 +315,10 @@ def run(tier):
 
     # starting credentials: every configuration as root; the security-relevant ones (and init_security
     # alone) also through a set-uid-root launcher and as the already-switched account
+    r0 = impl_run([{"op": "c19_servertypes"}])[0]
+    if not r0["ok"]:
+        raise RuntimeError(r0["err"] + "\n" + r0.get("tb", ""))
+    shipped = r0["res"]
     sec = sec_opts()
     full = mk(True, True, True, "on", True, True)
     plain = [o for o in sec if not o.get("alt")]
@@ -252,8 +327,19 @@ def run(tier):
               [{"entry": "init_security", "opts": o, "starts": STARTS} for o in sec if o not in plain] + \
               [{"entry": "initialize", "opts": full, "starts": ["root"], "persistent_spans": PERSISTENT_SPANS}] + \
               [{"entry": "init_security", "opts": o, "starts": ["root"], "persistent_spans": PERSISTENT_SPANS} for o in plain] + \
-              [{"entry": "init_security", "opts": o, "starts": ["launcher", "dropped"]} for o in plain]
+              [{"entry": "init_security", "opts": o, "starts": ["launcher", "dropped"]} for o in plain] + \
+              [{"entry": "initialize", "opts": o, "starts": ["root"]} for o in stype_opts(shipped)]
     cases = sweep(configs)
+    # ... and the start-ups that go on to answer requests through the server object they return
+    sjob, docs = serve_job(chk.rng, shipped)
+    rs = impl_run([sjob])[0]
+    if not rs["ok"]:
+        raise RuntimeError(rs["err"] + "\n" + rs.get("tb", ""))
+    served = rs["res"]
+    for c in served:
+        c["docs"] = docs
+        c["serve"] = {"tree": sjob["tree"], "selectors": sjob["selectors"]}
+    cases += served
 
     # ---------------- oracle ----------------
     seen_tags = {}
@@ -271,14 +357,19 @@ def run(tier):
                        "start": c.get("start", "root"), "starting_credentials": c["res"]["start_creds"],
                        "final_credentials": c["res"]["final_creds"],
                        "credentials_order": "real uid, effective uid, saved uid, real gid, effective gid, saved gid, groups",
+                       "servertype": c["opts"].get("stype", DEFAULT_STYPE),
+                       "root_in_the_configuration_of_the_returned_server": c["res"].get("served_root"),
+                       "requests_put_to_the_returned_server": c["res"].get("replies"),
+                       "serve": c.get("serve"), "docs": c.get("docs"),
                        "failed_call": c["res"]["failed_call"], "outcome": c["res"]["kind"],
                        "escaping_exception": c["res"]["exc"], "recorded_calls": c["res"]["trace"],
                        "cases_with_this_finding": len(lst),
                        "how": "real pygopherd.initialization.%s with os/ssl/pwd/grp/server class substituted by recorders"
-                              % c["entry"]}, tag=tag)
+                              % c["entry"] + ("; os.chroot / os.chdir are recorded, not executed: '/' stays the real '/', "
+                                              "{ROOT} = the scratch document root" if c.get("serve") else "")}, tag=tag)
     # ---------------- K ----------------
     lits = [coq_case(c) for c in cases]
-    mism, err, nsh = coq_eval("C19", "k_run", "Lib.Str Model.Init Corr.K19", "chk_run", lits, shard=600,
+    mism, err, nsh = coq_eval("C19", "k_run", "Lib.Str Model.Init Corr.K19", "chk_run2", lits, shard=600,
                               pre=intern_table())
     cov["correspondence"] = {"cases": len(cases), "shards": nsh, "mismatches": len(mism), "errors": [err] if err else [],
                              "configurations_initialize": len(all_opts()), "configurations_init_security": len(sec_opts()),
@@ -287,6 +378,25 @@ def run(tier):
                                                      "where": "every call of init_security (18 configurations) and of the "
                                                               "start-up with everything configured"}, "exhaustive": True}
     cov["oracle"] = {"sequences_checked": len(cases), "findings": {t: len(v) for t, v in seen_tags.items()}}
+    ret = [c for c in cases if c["entry"] == "initialize" and c["res"]["kind"] == "running"]
+    chrooted = [c for c in ret if any(n == "os.chroot" for n, _ in c["res"]["trace"])]
+    cov["returned_server"] = {
+        "servertypes_shipped": shipped, "servertypes_naming_no_class": BAD_STYPES,
+        "start_ups_whose_returned_server_was_inspected": len(ret),
+        "of_these_after_a_chroot": len(chrooted),
+        "after_a_chroot_by_servertype": {st: sum(1 for c in chrooted if c["opts"].get("stype", DEFAULT_STYPE) == st)
+                                         for st in shipped},
+        "start_ups_followed_by_requests": len(served),
+        "requests_answered": sum(len(c["res"]["replies"] or []) for c in served),
+        "documents_found_at_the_expected_selector": sum(
+            1 for c in served for rel, tok in docs for x in (c["res"]["replies"] or [])
+            if x["selector"] == (("{ROOT}" if any(n == "os.chroot" for n, _ in c["res"]["trace"]) else "") + rel)
+            and tok in x["out"]),
+        "documents_expected": sum(len(docs) for c in served if c["res"]["kind"] == "running")}
+    if served:
+        chk.sample({"kind": "requests put to the returned server", "options": served[-1]["opts"],
+                    "root_in_its_configuration": served[-1]["res"].get("served_root"),
+                    "replies": [[x["selector"], x["out"][:60]] for x in served[-1]["res"]["replies"] or []]})
     full = [c for c in cases if c["entry"] == "initialize" and c["fail"] is None and not c["fork_parent"]
             and all(c["opts"][k] for k in ("chroot", "uid", "gid", "pid", "detach")) and c["opts"]["tls"] == "on"]
     if full:
@@ -308,8 +418,12 @@ def run(tier):
                    "is 0 for each present/absent combination (10), every boolean option in 13 spellings incl. invalid ones (39) "
                    "for initialize + 31 configurations of init_security alone, started as root; the security configurations of both "
                    "also started through a set-uid-root launcher (real ids = account, effective/saved 0) and as the account "
-                   "itself; for each the unfailed start-up, the parent side "
-                   "of the fork, and every external call failing in turn with OSError / KeyError / RuntimeError; "
+                   "itself; servertype: every class pygopherd.server ships x usechroot x setuid x setgid and once with everything "
+                   "configured, and four values naming no server class; for each the unfailed start-up, the parent side "
+                   "of the fork, and every external call failing in turn with OSError / KeyError / RuntimeError; every start-up "
+                   "that returns: the root option in the configuration of the returned server object; per shipped servertype x "
+                   "usechroot (4 spellings) x setuid/setgid a start-up over a real scratch document root followed by requests put "
+                   "to the returned server (its own per-request code and handler class); "
                    "non-trivial = a failure is injected or a privilege step occurs")
     chk.assumptions += [
         "external calls are the only places where start-up can fail (configuration reads and logging are treated as total)",
@@ -321,6 +435,12 @@ def run(tier):
         "in addition; init_config/init_logger/init_exceptions run for real every time, init_mimetypes once per "
         "driver process; they are opaque steps of the IR",
         "chdir must be os.chdir('/') after os.chroot (the chdir-then-chroot('.') idiom would need the checker widened)",
+        "os.chroot is recorded, never executed: for the requests put to the returned server the process still sees the "
+        "whole file system, so 'selectors are resolved against /' is observed as: the selector <scratch root>/doc is "
+        "answered with the document and /doc is not; the requests run in the driver process through "
+        "process_request_thread (threading server) or wrap_socket + finish_request + shutdown_request (what the forked "
+        "child runs) over an in-memory connection; module-level caches of pygopherd are reset before start-up and not "
+        "between start-up and the requests",
         "process-group set-up (os.setpgrp/os.getpgrp) is best-effort by design and exempt from the abort clause",
         "credentials are simulated symbolically (root = 0, the configured account = the pwd/grp look-up results) with the "
         "Linux semantics of setgroups/setre*id/setres*id/set*id for a process allowed to make the change; the kernel "
@@ -332,16 +452,24 @@ def run(tier):
 def replay(path):
     with open(path) as f:
         rep = json.load(f)
-    job = {"op": "c19_one", "entry": rep["entry"], "opts": rep["options"], "fail": rep.get("failure"),
-           "fork_parent": False, "start": rep.get("start", "root")}
+    if rep.get("serve"):
+        job = {"op": "c19_serve", "configs": [{"opts": rep["options"], "start": rep.get("start", "root")}],
+               "tree": rep["serve"]["tree"], "selectors": rep["serve"]["selectors"]}
+    else:
+        job = {"op": "c19_one", "entry": rep["entry"], "opts": rep["options"], "fail": rep.get("failure"),
+               "fork_parent": False, "start": rep.get("start", "root")}
     r = impl_run([job])[0]
     if not r["ok"]:
         print(r["err"])
         return 2
+    res = r["res"][0]["res"] if rep.get("serve") else r["res"]
+    r = {"res": res}
     case = {"entry": rep["entry"], "opts": rep["options"], "fail": rep.get("failure"), "fork_parent": False,
-            "start": rep.get("start", "root"), "res": r["res"]}
+            "start": rep.get("start", "root"), "res": r["res"], "docs": rep.get("docs")}
     hits = oracle(case)
     print(json.dumps({"outcome": r["res"]["kind"], "exception": r["res"]["exc"],
                       "starting_credentials": r["res"]["start_creds"], "final_credentials": r["res"]["final_creds"],
+                      "root_in_the_configuration_of_the_returned_server": r["res"].get("served_root"),
+                      "requests_put_to_the_returned_server": r["res"].get("replies"),
                       "calls": r["res"]["trace"], "findings": hits}, indent=1))
     return 1 if hits else 0
